@@ -57,6 +57,17 @@ def start_zygote(env: dict, bare: bool = False) -> tuple[int, socket.socket]:
     pid = os.fork()
     if pid:
         child_sock.close()
+        # wait until the zygote has finished its imports: nothing of the simulated world (the cache folder is wiped
+        # and re-created at the start of a run) may change while real, unscheduled SPSDK code is still running
+        parent_sock.settimeout(300)
+        try:
+            hello = parent_sock.recv(16)
+        except OSError as exc:
+            raise RuntimeError(f"zygote did not come up: {exc}") from exc
+        finally:
+            parent_sock.settimeout(None)
+        if not hello.startswith(b"ready"):
+            raise RuntimeError(f"zygote failed to start: {hello!r}")
         return pid, parent_sock
     # ---- zygote
     try:
@@ -83,6 +94,7 @@ def start_zygote(env: dict, bare: bool = False) -> tuple[int, socket.socket]:
             assert os.path.realpath(spsdk.__file__).startswith(os.path.realpath(repo) + os.sep), spsdk.__file__
             assert database.DatabaseManager._instance is None
         logging.disable(logging.CRITICAL)
+        child_sock.sendall(b"ready\n")
         _zygote_loop(child_sock)
     except BaseException:  # pylint: disable=broad-except
         traceback.print_exc()
